@@ -93,3 +93,19 @@ Definition db_range (s : db) : list (key * bytes) :=
 
 (** NewDB on the same path (only meaningful once the previous object is closed) *)
 Definition db_reopen (s : db) : db := new_db (d_max s) (d_disk s).
+
+(** RangeKeys(handler): nothing when the pointer is nil; otherwise the iterator (ascending keys) is walked
+    until it is exhausted or the handler answers false (`break`) *)
+Definition db_range_with {St : Type} (h : St -> key * bytes -> St * bool) (st : St) (s : db) : St :=
+  if d_open s then iter_with h st (ksort (d_disk s)) else st.
+
+(** Destroy: batch.Reset(); sizeBatch = 0; cancel; pointer := nil; db.Close() (if the pointer was not nil already);
+    os.RemoveAll(path).  The pending batch is discarded, not written.  No step of it fails in the model. *)
+Definition db_destroy (s : db) : db * rclass :=
+  ({| d_batch := batch_reset (d_batch s); d_size := 0; d_max := d_max s; d_disk := []; d_open := false |}, ROk).
+
+(** DestroyClosed: os.RemoveAll(path), nothing else (the object is not touched).  Only meaningful once the
+    pointer is nil: on an open DB the directory would be removed under a running goleveldb, which is outside
+    the model (the wire component refuses the call unless Close or Destroy came first). *)
+Definition db_destroy_closed (s : db) : db * rclass :=
+  ({| d_batch := d_batch s; d_size := d_size s; d_max := d_max s; d_disk := []; d_open := d_open s |}, ROk).
